@@ -1096,6 +1096,8 @@ impl Vm {
         };
         let handler_count = self.active_fiber().exc_handlers.len();
         self.active_fiber_mut().return_handler_count = handler_count;
+        let frame_count = self.active_fiber().frames.len();
+        self.active_fiber_mut().return_frame_count = frame_count;
         self.active_fiber_mut().close_upvalues(init_stack_size);
         self.active_fiber_mut().stack.truncate(init_stack_size);
         self.ip = new_ip;
@@ -1203,6 +1205,14 @@ impl Vm {
 
     fn return_impl(&mut self) -> Result<Option<Value>, Error> {
         let result = self.pop();
+        // A return that the frame being left had parked (this is a 'return' inside the finally
+        // block it was parked for) is superseded by this one.
+        let frame_count = self.active_fiber().frames.len();
+        if self.active_fiber().return_ip.is_some()
+            && self.active_fiber().return_frame_count == frame_count
+        {
+            self.active_fiber_mut().take_return_data();
+        }
         self.active_fiber_mut().close_upvalues_for_frame();
 
         let prev_stack_size = self.active_fiber().current_frame().unwrap().slot_base;
